@@ -1,7 +1,7 @@
 """Line server used by C11: run under `python`, `python -O`, `python -OO`; reads one JSON request per
 line ({shape, semiring, method, j_precompute, dtype, grad}), prints one JSON reply per line."""
-import json, math, sys, warnings
-sys.path.insert(0, '/repo')
+import json, math, os, sys, warnings
+sys.path.insert(0, os.environ.get('FGGS_REPO', '/repo'))
 sys.path.insert(0, sys.argv[1])
 import torch
 import fggs
